@@ -331,6 +331,8 @@ def sim_getsignal(sig):
 def sim_kill(pid, sig):
     p = S.procs.get(pid)
     if p is None or p.killed or (p.main_st is not None and p.main_st.done):
+        if p is not None:
+            S.rec('os.kill-miss', p.name, sig)      # the attempt is an action of the sender even though nobody is there
         raise ProcessLookupError(pid)
     S.rec('os.kill', p.name, sig)
     if sig == SIGKILL:
@@ -368,12 +370,20 @@ class Thread:
         self._name = name or (getattr(target, '__name__', None) or f'T{next(Thread._n)}')
         self._st = St(self._name)
         self._st.role = self._name.lstrip('_')
+        if self._st.role == 'terminate_worker' and args and isinstance(args[0], int) and not isinstance(args[0], bool):
+            # one clean-up thread per worker and per terminate() call: told apart in the trace
+            n = getattr(S, 'tw_count', 0) if S is not None else 0
+            if S is not None:
+                S.tw_count = n + 1
+            self._st.role = 'terminate_worker[%d]#%d' % (args[0], n)
         self._pid = None
         self._ident = None
         self._is_proc = False
 
     @property
     def pid(self):
+        if getattr(self, '_closed', False):
+            raise ValueError('process object is closed')       # multiprocessing.process.BaseProcess.ident: _check_closed()
         return self._pid if getattr(self, '_ready', True) else None
 
     @property
@@ -453,10 +463,15 @@ class Thread:
         if ok:
             S.ledger['joined:' + self._st.role] += 1
             self._joined = True
+        if self._st.role == 'restart_handler' or str(S.cur.role).startswith('terminate_worker'):
+            S.rec('x.join', self._st.role, timeout is not None, bool(ok))
 
     def is_alive(self):
         S.yield_point('is_alive', self)
-        return self._st.started and not self._st.done
+        r = self._st.started and not self._st.done
+        if self._st.role == 'restart_handler' or str(S.cur.role).startswith('terminate_worker'):
+            S.rec('x.is_alive', self._st.role, bool(r))
+        return r
 
 
 class Process(Thread):
@@ -483,11 +498,13 @@ class Process(Thread):
         # (pid, is_alive(), join()) when Popen() has returned — the thread calling start() can be descheduled in between
         super().start()
         self._ready = True
+        S.rec('proc.ready', self._st.role)
 
     def _entry(self):
         return self._clone.run
 
     def terminate(self):
+        S.rec('proc.terminate', self._st.role)
         try:
             sim_kill(self.pid, SIGTERM)
         except ProcessLookupError:
@@ -503,9 +520,12 @@ class Process(Thread):
         if self._st.started and not self._st.done:
             raise ValueError('Cannot close a process while it is still running. You should first call join() or terminate().')
         self._closed = True
+        S.rec('proc.close', self._st.role)
         S.ledger['proc_closed'] += 1
 
     def join(self, timeout=None):
+        if self._closed:
+            raise ValueError('process object is closed')
         if not self._st.started or not getattr(self, '_ready', False):
             raise AssertionError('can only join a started process')
         super().join(timeout)
@@ -621,6 +641,8 @@ class Condition(_Shared):
         me = S.cur
         tok = [False]
         self._waiters.append(tok)
+        if self.role == 'restart_condition':
+            S.rec('cond.wait', self.role)
         saved = self._lock._cnt
         self._lock._owner = None
         self._lock._cnt = 0
@@ -648,9 +670,13 @@ class Condition(_Shared):
                 self._lock._owner = me
                 self._lock._cnt = saved
                 me.held += 1
+                if self.role == 'restart_condition':
+                    S.rec('cond.woken', self.role)
         return ok
 
     def notify(self, n=1):
+        if self.role == 'restart_condition':
+            S.rec('cond.notify', self.role, bool(self._waiters))
         for _ in range(n):
             if self._waiters:
                 self._waiters.pop(0)[0] = True
@@ -668,6 +694,8 @@ class Value(_Shared):
     @property
     def value(self):
         S.yield_point('value.get', self, self._v)
+        if str(S.cur.role).startswith('terminate_worker'):
+            S.rec('value.get', self.role, self._v)
         return self._v
 
     @value.setter
